@@ -103,6 +103,24 @@ def run(rep, tier, rng):
         elems, shared = G.gen_trait_args(rng, derived)
         text = G.render(item)
         mode = rng.random()
+        if len(elems) >= 2 and rng.random() < 0.2:
+            # the list split over two derive_ex attributes, `dump` shared by only ONE of them
+            cut = rng.randrange(1, len(elems))
+            parts = [elems[:cut], elems[cut:]]
+            which = rng.randrange(2)
+            dumped = set(range(0, cut)) if which == 0 else set(range(cut, len(elems)))
+            p0 = [", ".join(p + shared) for p in parts]
+            p1 = [", ".join(p + shared + (["dump"] if k == which else [])) for k, p in enumerate(parts)]
+            if entry == "attr":
+                r0 = {"id": len(reqs), "entry": "attr", "attr": p0[0], "item": f"#[derive_ex({p0[1]})] {text}"}
+                r1 = {"id": len(reqs) + 1, "entry": "attr", "attr": p1[0], "item": f"#[derive_ex({p1[1]})] {text}"}
+            else:
+                r0 = {"id": len(reqs), "entry": "derive", "attr": "", "item": f"#[derive_ex({p0[0]})] #[derive_ex({p0[1]})] {text}"}
+                r1 = {"id": len(reqs) + 1, "entry": "derive", "attr": "", "item": f"#[derive_ex({p1[0]})] #[derive_ex({p1[1]})] {text}"}
+            reqs += [r0, r1]
+            plan.append(("type", r0["id"], r1["id"], [trait_of(e) for e in elems], dumped, entry))
+            rep.count("pairs_split_list_one_dump")
+            continue
         if mode < 0.3:
             dumped = set(range(len(elems)))
             e1 = elems + shared + ["dump"]
